@@ -26,5 +26,11 @@ let () =
        | ["L"; p; i; n] -> print_endline (show (link_block (n_of_int (int_of_string p)) (n_of_int (int_of_string i)) (bytes_of_hex n) ents))
        | ["U"; n] -> print_endline (show (unlink_block (bytes_of_hex n) ents))
        | _ -> print_endline "?")
+    | h :: root :: nodes when (match words h with "DX" :: _ -> true | _ -> false) ->
+      (* DX <hash> | hash:blk ... (root entries, entry 0 first) | blk hash:blk ... (one group per interior node) ...  -> leaf block *)
+      let pair x = match String.split_on_char ':' x with [a; b] -> (n_of_int (int_of_string a), n_of_int (int_of_string b)) | _ -> failwith "bad pair" in
+      let hv = (match words h with [_; x] -> n_of_int (int_of_string x) | _ -> failwith "bad DX") in
+      let nd = List.filter_map (fun g -> match words g with [] -> None | b :: es -> Some (n_of_int (int_of_string b), List.map pair es)) nodes in
+      Printf.printf "%d\n" (int_of_n (dx_leaf (List.map pair (words root)) nd hv))
     | _ -> print_endline "?"
   done with End_of_file -> ()
